@@ -926,6 +926,11 @@ def gen_package(rng: random.Random, knobs: Knobs | None = None, ns=None) -> Pkg:
         pkg.binaries[f"word/media/{name}"] = data
     if g.p(0.2):
         pkg.binaries["customXml/item1.xml"] = b"<x/>"
+    if g.p(0.12):
+        # unrelated members whose names differ from a content / relationships part only in case
+        pkg.binaries["word/Document.xml"] = b"<other/>"
+        pkg.binaries["word/_rels/Document.xml.RELS"] = b"not a relationships part"
+        g.feat("case_variant_members")
     if g.p(0.2):
         pkg.dir_entries = True
         g.feat("dir_entries")
